@@ -33,6 +33,12 @@ THEOREMS = [
     'C06.refines_getItem', 'C06.refines_deepcopy', 'C06.deepcopy_rows', 'C06.getItem_error_unchanged',
     'C06.GetItemRes.operand_unchanged', 'C06.GetItemRes.copy_fresh', 'C06.deepcopy_fresh',
     'C06.GetItemRes.slice_is_view',
+    # refinement: reads and indexed writes (record update, later duplicates win, nothing else changes)
+    'C06.refines_propGet_all', 'C06.refines_propGet_index', 'C06.refines_propSet', 'C06.propSet_error_unchanged',
+    'C06.propSet_then_propGet', 'C06.viewSet_existing_refines', 'C06.assign_spec',
+    # copying operations: results in fresh buffers, operands unchanged
+    'C06.frame_fresh_meaning', 'C06.extend_fresh_unchanged', 'C06.extendInt_fresh_unchanged',
+    'C06.propGetAtoms_fresh_unchanged', 'C06.new_fresh_unchanged',
     # refusals
     'C06.viewSet_len_mismatch_rejects', 'C06.viewSet_atype_lt_one_rejects', 'C06.propSet_atype_lt_one_rejects',
     'C06.assign_shape_mismatch_rejects', 'C06.assign_oob_rejects', 'C06.setItem_keys_mismatch_rejects',
